@@ -23,7 +23,7 @@ META = {
             'expression at the named node times (z3); (c) objective/constraints are unchanged by guesses (two real transcriptions, all x); (d) before/after-transcription orders give the same starting point',
     'functions': ['rockit/stage.py:set_initial', 'rockit/sampling_method.py:SamplingMethod.set_initial and the two-pass application in transcribe (phase 2)', 'rockit/direct_collocation.py:DirectCollocation.set_initial',
                   'rockit/direct_method.py:DirectMethod.set_initial/OptiWrapper.set_initial/initial', 'rockit/direct_method.py:fill_placeholders_T/t0 (guess of free horizons)'],
-    'bounds': 'guess forms: scalar, n x N, n x (N+1) (states), DM/list, expression of time; targets: states, controls, global/per-interval/control+ variables, algebraics (DC), free T/t0; MS/SS/DC; N<=3, M<=2; uniform/geometric/localized grids',
+    'bounds': 'guess forms: scalar, n x N, n x (N+1) (states), DM/list, expression of time; targets: states, controls (scalar, and a 2-vector control next to a scalar one), global/per-interval/control+ variables, algebraics (DC), free T/t0 (one horizon variable guessed up to three times through its two names); ground kind retry: a second query after a transcription that failed on an ill-shaped guess; MS/SS/DC; N<=3, M<=2; uniform/geometric/localized grids',
     'outside': 'guess VALUES travel through CasADi\'s numeric Opti store and cannot be symbolic: routing is a ground check with distinct values; (N+1)-column guesses for controls (not meaningful); bspline signals; IEEE rounding',
     'assumptions': ['casadi.OptiAdvanced.value is wrapped by a logging shim (attribute patch from /verif) to see which expression is evaluated at the starting point', 'reals for floats'],
     'explanation': 'ground routing check of the starting vector + solver-checked identity of the time-expression guesses for all guessed horizons + relational invariance of the NLP',
@@ -141,9 +141,22 @@ def instances(tier, seed):
                 for when in ('before', 'after'):
                     add(spec=fam.with_horizon(base, H[(N + M) % len(H)]), guesses=gset, when=when,
                         cfg=Cfg(method, N=N, M=M, intg=intg or 'rk', grid=grids[N % len(grids)], degree=2, scheme='radau'))
+    # a VECTOR-valued control next to a scalar one: per-node arrays (n x N and n x (N+1): the last interval keeps column N-1) and a time expression
+    for method, intg in (('DC', None), ('MS', 'rk'), ('SS', 'rk')):
+        for N in (3, 1):
+            base = Spec(nx=2, nu=3, ode=[X(1) + U(0), U(1) - U(2) * X(0)], ushape=[2, 1], note='vector-valued control next to a scalar control')
+            base.objective = [at_tf(X(0) * X(0)) + integral(U(0) * U(0) + U(1) * U(1) + U(2) * U(2))]
+            base.cons = [Con('==', at_t0(X(0)), 1)]
+            UG = E('ug', 0)
+            for gset in ([(UG, [[Fr(10 + k) for k in range(N + 1)], [Fr(20 + k) for k in range(N + 1)]]), (U(2), t * 3 - 1)],
+                         [(UG, [[Fr(30 + k) for k in range(N)], [Fr(40 + k) for k in range(N)]])],
+                         [(UG, [t * 2 + 1, 5 - t]), (U(2), [[Fr(7 + k) for k in range(N + 1)]])]):
+                for when in ('before', 'after'):
+                    add(spec=fam.with_horizon(base, H[1]), guesses=gset, when=when, cfg=Cfg(method, N=N, M=1, intg=intg or 'rk', grid=fam.G_UNI, degree=2, scheme='radau'))
     for method in ('MS', 'DC'):
         for when in ('before', 'after'):
             add(kind='alias', method=method, when=when)
+        add(kind='retry', method=method)
     # guesses for free t0/T through set_initial, in every order relative to the time-expression guesses and to the transcription
     Hfree = [h for h in H if h[0][0] == 'free' or h[1][0] == 'free']
     n = 0
@@ -186,7 +199,7 @@ def run_alias(item):
     whichever name it uses, before and after the first transcription"""
     from ..extract import Ocp, MultipleShooting, DirectCollocation
     viol, proved = [], []
-    for order in ('var-then-T', 'T-then-var'):
+    for order in ('var-then-T', 'T-then-var', 'var-T-var', 'T-var-T'):
         with quiet():
             ocp = Ocp()
             x = ocp.state()
@@ -201,7 +214,9 @@ def run_alias(item):
             ocp.method(MultipleShooting(N=3) if item['method'] == 'MS' else DirectCollocation(N=2))
             if item['when'] == 'after':
                 ocp._transcribed
-            calls = [(Tv, 1.25), (ocp.T, 2.5)] if order == 'var-then-T' else [(ocp.T, 2.5), (Tv, 1.25)]
+            calls = {'var-then-T': [(Tv, 1.25), (ocp.T, 2.5)], 'T-then-var': [(ocp.T, 2.5), (Tv, 1.25)],
+                     # a name used AGAIN after the other one: still the last call
+                     'var-T-var': [(Tv, 1.25), (ocp.T, 2.5), (Tv, 3.75)], 'T-var-T': [(ocp.T, 2.5), (Tv, 1.25), (ocp.T, 0.75)]}[order]
             for sym, val in calls:
                 ocp.set_initial(sym, val)
             ocp.set_initial(x, 2 * ocp.t)
@@ -212,7 +227,7 @@ def run_alias(item):
         want = calls[-1][1]
         if not close(got, want):
             viol.append({'property': PROP, 'key': 'last-call-wins:alias|%s|%s' % (item['method'], item['when']), 'label': order, 'cfg': item['method'], 'spec': 'set_T(variable)',
-                         'detail': 'guesses %s then %s for the same horizon (two names): the starting value is %r, the last call gave %r' % (calls[0][1], calls[1][1], got, want)})
+                         'detail': 'guesses %s in this order for the same horizon (two names): the starting value is %r, the last call gave %r' % ([c_[1] for c_ in calls], got, want)})
         elif not close(xs[-1], 2 * want):
             viol.append({'property': PROP, 'key': 'alias-guess-times|%s|%s' % (item['method'], item['when']), 'label': order, 'cfg': item['method'], 'spec': 'set_T(variable)',
                          'detail': 'state guess 2*t at the final node starts at %r, the guessed horizon %r implies %r' % (xs[-1], want, 2 * want)})
@@ -225,9 +240,51 @@ def run_alias(item):
     return res
 
 
+def run_retry(item):
+    """GROUND: a guess that does not fit makes the first query raise; asking again must not quietly run WITHOUT the guesses (the rejected one and
+    every guess given with it): it raises again, or every fitting guess is in effect"""
+    from ..extract import Ocp, MultipleShooting, DirectCollocation
+    viol, proved = [], []
+    with quiet():
+        ocp = Ocp(T=1)
+        x = ocp.state()
+        u = ocp.control()
+        ocp.set_der(x, u)
+        ocp.subject_to(ocp.at_t0(x) == 0)
+        ocp.add_objective(ocp.integral(u * u))
+        ocp.set_initial(u, np.ones((3, 7)))      # fits neither N nor N+1 columns, nor the single row of u
+        ocp.set_initial(x, 2.0)
+        ocp.solver('ipopt')
+        ocp.method(MultipleShooting(N=4) if item['method'] == 'MS' else DirectCollocation(N=4))
+        outcome = []
+        for attempt in range(2):
+            try:
+                ocp._transcribed
+                opti = ocp._method.opti
+                outcome.append([float(v) for v in np.array(opti.debug.value(ocp.sample(x, grid='control')[1], opti.initial())).flatten()])
+            except Exception as e:
+                outcome.append('raised')
+    if outcome[0] != 'raised':
+        proved.append('the ill-shaped guess was accepted by the first query (nothing to retry)')
+    elif outcome[1] == 'raised':
+        proved.append('the second query raises like the first')
+    elif all(close(v, 2.0) for v in outcome[1]):
+        proved.append('the second query runs with the fitting guesses in effect')
+    else:
+        viol.append({'property': PROP, 'key': 'guesses-dropped-after-failed-transcription|%s' % item['method'], 'label': 'second query', 'cfg': item['method'], 'spec': 'set_initial(u, ones(3,7)); set_initial(x, 2)',
+                     'detail': 'the first query raised on the ill-shaped guess; the second query ran quietly and starts x at %s although set_initial(x, 2.0) was given' % outcome[1]})
+    res = {'stats': {}, 'obligations': 1, 'discharged': len(proved), 'nontrivial': proved, 'violations': viol, 'shape': 'retry %s' % item['method'],
+           'sample': {'kind': 'retry (ground)', 'method': item['method'], 'outcomes': [o if o == 'raised' else 'ran' for o in outcome]}}
+    if viol:
+        res['status'] = 'violation'
+    return res
+
+
 def run(item):
     if item.get('kind') == 'alias':
         return run_alias(item)
+    if item.get('kind') == 'retry':
+        return run_retry(item)
     spec0, cfg, guesses, when = item['spec'], item['cfg'], item['guesses'], item['when']
     N, M = cfg.N, cfg.M
     viol = []
@@ -272,6 +329,15 @@ def run(item):
                     for j_ in range(r_ * c_):
                         final[repr(X(off + j_))] = (X(off + j_), val if isinstance(val, (int, Fr, E)) else [val[j_]])
                 off += r_ * c_
+            continue
+        if tgt.op == 'ug':
+            # guess for a whole vector-valued control: a scalar (expression) is repeated, an array has one row per element
+            off = 0
+            for gi_, n__ in enumerate(spec0.ushape):
+                if gi_ == tgt.a[0]:
+                    for j_ in range(n__):
+                        final[repr(U(off + j_))] = (U(off + j_), val if isinstance(val, (int, Fr, E)) else (val[j_] if isinstance(val[j_], E) else [val[j_]]))
+                off += n__
             continue
         if tgt.op == 'vg':
             final['vg:' + tgt.a[0]] = (tgt, val)
@@ -374,7 +440,8 @@ def run(item):
                 twins_bad += 1
             break
     # ---- (b) expressions evaluated at the initial point, for all guessed t0/T ------------------------------
-    tguess = [(tgt, val) for tgt, val in final.values() if isinstance(val, E)]
+    tguess = [(tgt, val) for tgt, val in final.values() if isinstance(val, E)
+              and not (tgt.op == 'u' and getattr(spec0, 'ushape', None))]      # (vector-of-expressions guesses of a vector-valued control are evaluated as one matrix: covered by the ground read-back (a))
     if tguess and log.exprs:
         syms = nlp.xsyms + nlp.psyms
         cand = []
